@@ -1,4 +1,5 @@
 import ShpanVerif.Drive.PipeCommon
+import ShpanVerif.Drive.C04Ext
 /-
 Driver handler for C04: fault-free single materialisations of ordered pipelines vs the list model.
 Spec predicate (on the observation): terminal succeeded and delivered exactly `Spec.eval` of the pipeline
@@ -18,6 +19,7 @@ def specRun (p : Pipe) (r : Run) (o : ObsRun) : Bool × String :=
   | _, _ => (true, "")
 
 def handle (c obs : String) : String × Bool × String :=
+  if c.startsWith "L " then ShpanVerif.Drive.C04Ext.handle c obs else   -- second part of the family
   match parseCase c with
   | none => ("bad-case", false, "unparsable case")
   | some (p, rs) =>
